@@ -34,7 +34,7 @@ def cases(tier, seed):
     n = 100 if tier == "quick" else 5000
     for i in range(n):
         yield {"kind": "tree", "seed": seed, "idx": i}
-    for i in range(14 if tier == "quick" else 300):
+    for i in range(21 if tier == "quick" else 300):
         yield {"kind": "prevent", "seed": seed, "idx": i}
 
 
@@ -176,8 +176,11 @@ def run_prevent(case, out, fail):
     forms = [["call", f[2], 2], ["kwcall", f[2], 2], ["partial", f[2], 2], ["batch", f[2], [2, 2]],
              ["ctxcall", f[2], 2, {"tenant": 9}], ["ctxcall", f[2], 2, {"asof": "2020-01-01"}], ["ctxcall", f[2], 2, {}]]
     inner = forms[case["idx"] % len(forms)]
+    # the prevented call may attach context arguments of its own, before or after the prevention (by case index)
+    pstep = [["prevent", f[1], 1], ["prevent", f[1], 1, {"zone": 5}, "ctx_first"], ["prevent", f[1], 1, {"zone": 5}, "ctx_last"]][
+        (case["idx"] // len(forms)) % 3]
     tree = {"id": tid, "nodes": [
-        {"fn": f[0], "steps": [["prevent", f[1], 1], ["call", f[3], 3]], "fail": None},
+        {"fn": f[0], "steps": [pstep, ["call", f[3], 3]], "fail": None},
         {"fn": f[1], "steps": [inner, ["resource", "res://p"]], "fail": None},   # runs with further calls prevented
         {"fn": f[2], "steps": [], "fail": None},                                   # must never run
         {"fn": f[3], "steps": [["call", f[4], 4]], "fail": None},                  # ordinary sibling: runs
